@@ -77,6 +77,8 @@ var forgedValues = []string{
 	"for=6.6.6.6; proto=https", "for=1.1.1.1;proto=ws;by=2.2.2.2", "for=9.9.9.9", "proto=", "proto=;x", "PROTO=https",
 	"8443", "0", "evil.example", "evil.example:81", "websocket", "Websocket", "WebSocket", "WEBSOCKET", "h2c", "/forged",
 	"a proto=b proto=c;d",
+	// addresses that textually end in / contain a peer address of the universe (1.2.3.4, 10.0.0.7, ::1, 2001:db8::1)
+	"11.2.3.4", "9.9.9.9, 210.0.0.7", "2001:db8::1", "1.2.3.4", "7.7.7.7, ::1",
 }
 
 // caseVariant renders a header name in one of several casings.
